@@ -961,3 +961,34 @@ func emptyPointDup(src string) (r bool) {
 	}
 	return bPoint && cEmptyPlus
 }
+
+// absorbingConstKept: known finding transform-refold-drops-operands - the
+// folded expression still has an and / or with its absorbing constant as an
+// operand (the folder kept it because an operand before it is not discardable).
+func absorbingConstKept(src string) (found bool) {
+	defer func() {
+		if e := recover(); e != nil {
+			found = false
+		}
+	}()
+	p := qry.NewQueryParser(src, nil, nil)
+	p.EqToIs = true
+	var visit func(e ast.Node) ast.Node
+	visit = func(e ast.Node) ast.Node {
+		if n, ok := e.(*ast.Nary); ok && (n.Tok == tok.And || n.Tok == tok.Or) {
+			zero := core.Value(core.False)
+			if n.Tok == tok.Or {
+				zero = core.True
+			}
+			for _, x := range n.Exprs {
+				if c, ok := x.(*ast.Constant); ok && c.Val == zero {
+					found = true
+				}
+			}
+		}
+		e.Children(visit)
+		return e
+	}
+	visit(p.Expression())
+	return found
+}
